@@ -249,6 +249,8 @@ def builder(ctx, rule):
         ({"base_url": "http://a.com", "args": {"a": 1, "b": 1}}, {}, "http://a.com?a=1&b=1", "defaults used when the call gives nothing"),
         ({"base_url": "http://a.com", "args": {"a": 1, "b": 1}}, {"args": {"b": 2, "c": 3}}, "http://a.com?a=1&b=2&c=3", "dict args merged, call-site value wins"),
         ({"base_url": "http://a.com"}, {"args": {"b": 2}}, "http://a.com?b=2", "call-site args alone"),
+        ({"base_url": "http://a.com", "args": {"a": 1, "b": 1}}, {"args": {"a": None}}, "http://a.com?b=1", "a call-site None unsets a default"),
+        ({"base_url": "http://a.com", "args": {"a": 1}}, {"args": {"a": None}}, "http://a.com", "unsetting the only default leaves no '?'"),
         ({"base_url": "http://a.com", "path": "d"}, {"path": "x"}, "http://a.com/x", "call-site path wins"),
         ({"base_url": "http://a.com", "path": "d"}, {}, "http://a.com/d", "default path"),
         ({"base_url": "http://a.com", "fragment": "d"}, {"fragment": "f"}, "http://a.com#f", "call-site fragment wins"),
@@ -292,6 +294,8 @@ def query_argument(ctx, rule):
         (("http://a.com/x", "k", True), "http://a.com/x?k"),
         (("http://a.com/x?", "k", 1), "http://a.com/x?k=1"),
         (("http://a.com/x#", "k", "v"), "http://a.com/x?k=v#"),
+        (("http://a.com/x?a=1?", "k", "v"), "http://a.com/x?a=1?&k=v"),
+        (("http://a.com/x?a=b?c#f?g", "k", "v"), "http://a.com/x?a=b?c&k=v#f?g"),
     ]
     for args, exp in cases:
         try:
